@@ -1182,6 +1182,99 @@ fn multiclass_one_vs_all_saturated_ties() -> Result<Fp, String> {
     Ok(fp)
 }
 
+/// many exactly tied candidate splits: every feature column occurs twice (once rescaled), so the
+/// best split score of a node is reached by at least two features bit for bit - whichever order the
+/// candidates are examined in must not matter
+fn tree_duplicated_columns() -> Result<Fp, String> {
+    use linfa_trees::{DecisionTree, SplitQuality};
+    let (x0, y) = blobs(600, 4, 4, 66);
+    let x = Array2::from_shape_fn((600, 8), |(i, j)| if j < 4 { x0[(i, j)] } else { x0[(i, j - 4)] * 2.0 });
+    let q = Array2::from_shape_fn((50, 8), |(i, j)| ((i * 13 + j * 7) % 17) as f64 * 0.7 - 5.0);
+    let ds = Dataset::new(x.clone(), y);
+    let mut fp = Fp::new();
+    for sq in [SplitQuality::Gini, SplitQuality::Entropy] {
+        let m = DecisionTree::params().split_quality(sq).fit(&ds).map_err(e)?;
+        fp.extend(tree_fp(&m, &q));
+    }
+    Ok(fp)
+}
+
+/// History inside one process: an estimator fitted on D1, then on D2 written IN PLACE into the
+/// same buffer (same address, shape and strides), must give what a fit on a fresh copy of D2
+/// gives. A disagreement is reported by the parent as `history_dependence.<entry>`.
+fn history_refit_same_buffer() -> Result<Fp, String> {
+    use linfa_bayes::GaussianNb;
+    use linfa_clustering::KMeans;
+    use linfa_linear::LinearRegression;
+    use linfa_logistic::LogisticRegression;
+    use linfa_reduction::Pca;
+    use linfa_trees::DecisionTree;
+    let (d1, y1) = blobs(150, 3, 3, 71);
+    let (d2, y2) = blobs(150, 3, 3, 72);
+    let fits: Vec<(&str, Box<dyn Fn(&Array2<f64>, &Array1<usize>) -> Result<Fp, String>>)> = vec![
+        ("decision_tree", Box::new(|x, y| {
+            let m = DecisionTree::params().fit(&DatasetBase::new(x.view(), y.view())).map_err(e)?;
+            Ok(tree_fp(&m, x))
+        })),
+        ("gaussian_nb", Box::new(|x, y| {
+            let m = GaussianNb::params().fit(&DatasetBase::new(x.view(), y.view())).map_err(e)?;
+            let mut fp = Fp::new();
+            bj(&mut fp, &m);
+            bu(&mut fp, m.predict(x).as_slice().unwrap());
+            Ok(fp)
+        })),
+        ("kmeans", Box::new(|x, _| {
+            let m = KMeans::params_with_rng(3, rng(5)).n_runs(2).max_n_iterations(10).fit(&DatasetBase::from(x.view())).map_err(e)?;
+            let mut fp = Fp::new();
+            b2(&mut fp, m.centroids());
+            bf(&mut fp, m.inertia());
+            Ok(fp)
+        })),
+        ("logistic", Box::new(|x, y| {
+            let t = y.mapv(|c| c == 0);
+            let m = LogisticRegression::default().alpha(0.5).max_iterations(50).fit(&DatasetBase::new(x.view(), t.view())).map_err(e)?;
+            let mut fp = Fp::new();
+            b1(&mut fp, m.params());
+            bf(&mut fp, m.intercept());
+            Ok(fp)
+        })),
+        ("ols", Box::new(|x, y| {
+            let t = y.mapv(|c| c as f64);
+            let m = LinearRegression::new().fit(&DatasetBase::new(x.view(), t.view())).map_err(e)?;
+            let mut fp = Fp::new();
+            b1(&mut fp, m.params());
+            bf(&mut fp, m.intercept());
+            Ok(fp)
+        })),
+        ("pca", Box::new(|x, _| {
+            let m = Pca::params(3).fit(&DatasetBase::from(x.view())).map_err(e)?;
+            let mut fp = Fp::new();
+            b2(&mut fp, m.components());
+            b1(&mut fp, m.singular_values());
+            Ok(fp)
+        })),
+    ];
+    let mut fp = Fp::new();
+    for (name, fit) in fits.iter() {
+        let mut buf = d1.clone();
+        let first = fit(&buf, &y1)?;
+        buf.assign(&d2);
+        let in_place = fit(&buf, &y2)?;
+        let fresh_copy = d2.clone();
+        let fresh = fit(&fresh_copy, &y2)?;
+        if in_place != fresh {
+            return Err(format!(
+                "HISTORY-DEPENDENCE: `{}` fitted on D2 after a fit on D1 in the same buffer differs from the fit on a fresh copy of D2 (first differing fingerprint word {:?})",
+                name,
+                in_place.iter().zip(fresh.iter()).position(|(a, b)| a != b)
+            ));
+        }
+        fp.extend(first);
+        fp.extend(in_place);
+    }
+    Ok(fp)
+}
+
 // ---------- hard inputs: fits that do not converge / degenerate data, where fallback, retry and
 // error paths run (a reproducible estimator is reproducible there too; Err and panic texts are
 // compared like results) ----------
@@ -1442,5 +1535,6 @@ pub fn registry() -> Vec<Entry> {
         diffusion_map_slowly_converging, pca_hard, iterative_fits_stopped_early,
         seeds_at_boundary_values, nb_unbalanced_classes, kmeans_pp_20000, pls_svd, kmeans_l1_big_f32, kernels_sparse_all_indices, svm_poly_f32_and_logistic_f32,
         scalers, whiteners, vectorizers, platt, one_vs_all_and_confusion, multiclass_svm_one_vs_all, multiclass_one_vs_all_saturated_ties,
+        tree_duplicated_columns, history_refit_same_buffer,
     ]
 }
